@@ -75,6 +75,7 @@ type Contract struct {
 	}
 	Inline  bool
 	Options map[string]string
+	Names   []string
 }
 
 type SpecFunc struct {
@@ -324,16 +325,23 @@ func (cs *ContractSet) ParseContractFile(fset *token.FileSet, pkgPath string, fi
 				name = strings.TrimSpace(rest[:i])
 				props = rest[i+6:]
 			}
-			name = strings.NewReplacer("(", "", ")", "", "*", "").Replace(strings.Fields(name)[0])
-			cur = &Contract{Pkg: pkgPath, Func: name, File: fname, Line: l.line, Loops: map[int]*LoopSpec{}, Props: parseProps(props), Options: map[string]string{}}
+			names := strings.Fields(strings.NewReplacer("(", "", ")", "", "*", "", ",", " ").Replace(name))
+			if len(names) == 0 {
+				errf(l, "func without a name")
+				continue
+			}
+			cur = &Contract{Pkg: pkgPath, Func: names[0], File: fname, Line: l.line, Loops: map[int]*LoopSpec{}, Props: parseProps(props), Options: map[string]string{}}
 			cur.Trusted = kw == "trusted"
 			cur.Pure = kw == "pure"
+			cur.Names = names
 			curLoop = nil
-			key := pkgPath + "." + name
-			if _, dup := cs.Funcs[key]; dup {
-				errf(l, "duplicate contract for %s", key)
+			for _, nm := range names {
+				key := pkgPath + "." + nm
+				if _, dup := cs.Funcs[key]; dup {
+					errf(l, "duplicate contract for %s", key)
+				}
+				cs.Funcs[key] = cur
 			}
-			cs.Funcs[key] = cur
 		case "props:":
 			if curLemma != nil {
 				curLemma.Props = parseProps(rest)
